@@ -503,17 +503,16 @@ impl Id {
             Ast::Ite(if_, then_, else_) => pipe(if_, cv, move |cv, v| {
                 if v.as_bool() { then_ } else { else_ }.run(cv)
             }),
-            Ast::Path(f, path) => {
+            // run the index filters only once the subject has yielded (and for each of its outputs)
+            Ast::Path(f, path) => flat_map_then_with(f.run(cv.clone()), cv, move |y, cv| {
                 let path = path.map_ref(|i| {
                     let cv = cv.clone();
                     crate::into_iter::collect_if_once(move || i.run(cv))
                 });
-                flat_map_then_with(f.run(cv), path, |y, path| {
-                    flat_map_then_with(path.explode(), y, |path, y| {
-                        Box::new(path.run(y).map(|r| r.map_err(Exn::from)))
-                    })
+                flat_map_then_with(path.explode(), y, |path, y| {
+                    Box::new(path.run(y).map(|r| r.map_err(Exn::from)))
                 })
-            }
+            }),
 
             Ast::Update(path, f) => path.update(
                 (cv.0.clone(), cv.1),
@@ -618,11 +617,12 @@ impl Id {
                     .map(|e| Err(Exn::from(Error::path_expr(e?))))
             }),
             Ast::Path(f, path) => {
-                let path = path.map_ref(|i| {
-                    let cv = (cv.0.clone(), cv.1 .0.clone());
-                    crate::into_iter::collect_if_once(move || i.run(cv))
-                });
-                flat_map_then_with(f.paths(cv), path, |y, path| {
+                let cv0 = (cv.0.clone(), cv.1 .0.clone());
+                flat_map_then_with(f.paths(cv), cv0, move |y, cv0| {
+                    let path = path.map_ref(|i| {
+                        let cv = cv0.clone();
+                        crate::into_iter::collect_if_once(move || i.run(cv))
+                    });
                     flat_map_then_with(path.explode(), y, |path, y| {
                         Box::new(path.paths(y).map(|r| r.map_err(Exn::from)))
                     })
